@@ -12,7 +12,11 @@ from __future__ import annotations
 
 from typing import TYPE_CHECKING, Final
 
-from mypy.constant_fold import constant_fold_binary_op, constant_fold_unary_op
+from mypy.constant_fold import (
+    MAX_FOLDED_STR_LENGTH,
+    constant_fold_binary_op,
+    constant_fold_unary_op,
+)
 from mypy.nodes import (
     BytesExpr,
     ComplexExpr,
@@ -88,12 +92,16 @@ def constant_fold_binary_op_extended(
         return constant_fold_binary_op(op, left, right)
 
     try:
+        # Like mypy's folder, refuse to build huge constants (see MAX_FOLDED_STR_LENGTH).
         if op == "+" and isinstance(left, bytes) and isinstance(right, bytes):
-            return left + right
+            if len(left) + len(right) <= MAX_FOLDED_STR_LENGTH:
+                return left + right
         elif op == "*" and isinstance(left, bytes) and isinstance(right, int):
-            return left * right
+            if len(left) * right <= MAX_FOLDED_STR_LENGTH:
+                return left * right
         elif op == "*" and isinstance(left, int) and isinstance(right, bytes):
-            return left * right
+            if left * len(right) <= MAX_FOLDED_STR_LENGTH:
+                return left * right
     except OverflowError:
         # The repeat count is too large (this fails at runtime as well).
         pass
